@@ -51,7 +51,10 @@ RULE_ADDED = (
               ' '
               'Round 10: quiet periods of 11 s .. 1 day by the clock the manager reads (jumped '
               'while every client waits), then a version request from each client and more traf'
-              'fic. ')
+              'fic. '
+              ' '
+              'Round 11: in every other late-answer round the TCP link is first lost and made a'
+              'gain after the server started; late answers of 29 / 30 / 35 / 61 s. ')
 RULE = RULE + " " + RULE_ADDED.strip()
 ASSUMPTIONS = [
     "schedules are those the OS produces under injected device delays; not enumerated",
@@ -77,7 +80,7 @@ def shards(tier, seed):
         return [{"seed": seed * 100 + i, "rounds": 2, "max_clients": 8, "per_client": 3,
                  "slow": [6.5] if i == 0 else [],
                  "fault_rounds": 1 if 1 <= i <= 3 else 0,
-                 "late": [12.5] if i in (4, 5) else [],
+                 "late": [12.5, 35.0] if i in (4, 5) else [],
                  "slowsend_rounds": 1 if i in (5, 6, 7) else 0,
                  "fatal_rounds": 2 if i in (3, 4, 6, 7) else 0,
                  "quiet": [31.0, 601.0] if i in (0, 1, 5) else [],
@@ -85,7 +88,7 @@ def shards(tier, seed):
     slow = {0: [6.5], 1: [12.0], 2: [32.0], 3: [62.0], 4: [125.0]}
     return [{"seed": seed * 100 + i, "rounds": 60, "max_clients": 16, "per_client": 4,
              "slow": slow.get(i, []), "fault_rounds": 6 if i >= 5 else 0,
-             "late": [10.5, 12.5, 30.0, 61.0] if i >= 5 else [],
+             "late": [10.5, 35.0, 12.5, 61.0, 30.0, 29.0] if i >= 5 else [],
              "slowsend_rounds": 3, "fatal_rounds": 8,
              "quiet": [11.0, 31.0, 61.0, 301.0, 3601.0, 86401.0],
              "uihb_tail": [12.5, 21.0] if i < 5 else []}
@@ -379,6 +382,27 @@ def run_round(acc, spec, rnd, rng, slow=None, fault=None, late=None, slowsend=Fa
                 jc.offset += quiet
                 rec.add("clock-jump", seconds=quiet)
             jump = threading.Barrier(nclients, action=_jump)
+        relinked = False
+        if late and rnd % 2 == 1:
+            # in every other late-answer round the link to the signer is first lost and
+            # made again (a link made after the server has started is made in whatever
+            # state the process is in by then - default socket options included)
+            from ..simdev.transport import Fault
+            s.bus.tcp_faults_as_hid = True
+            for j, flt in enumerate(({0: Fault("read_error")}, {})):
+                s.bus.arm(flt)
+                try:
+                    cs = socket.create_connection(("127.0.0.1", port), timeout=30)
+                    cs.sendall(json.dumps({"command": "blockchainState", "version": 5,
+                                           "_rid": "r%d.pre.%d" % (rnd, j)}).encode() + b"\n")
+                    cs.makefile("rb").readline()
+                    cs.close()
+                except OSError:
+                    pass
+            s.bus.arm({})
+            relinked = s.bus.handle_seq >= 2
+            if relinked:
+                acc.count("late_answer_rounds_on_a_link_made_again_after_start")
         barrier = threading.Barrier(nclients)
         ssrng = random.Random(rng.getrandbits(32))
         if slowsend:
@@ -491,6 +515,8 @@ def run_round(acc, spec, rnd, rng, slow=None, fault=None, late=None, slowsend=Fa
         t.join(10)
         if quiet:
             jc.uninstall()
+        # (process-wide socket defaults are not the harness's to keep from round to round)
+        socket.setdefaulttimeout(None)
         alive = any(th.is_alive() for th in threads)
 
     # ------------------------------------------------------------ checking --
